@@ -135,6 +135,26 @@ def handshakeRc (r : Res) : Int × String :=
   | .noMatch => (-1, "notpresent")
   | e => (-1, e.errClass)
 
+/-! ### the peer-certificate query on a live connection
+
+`tls_peer_cert_contains_name(ctx, q)` looks at `ctx->ssl_peer_cert` (recorded by `tls_handshake`
+when it returns 0) and at `q` — nothing else: not `ctx->servername`, not the state flags, not
+the `verify_name` setting.  That independence is the *type* of `peerContains`. -/
+
+/-- `tls_peer_cert_contains_name`: `peer = none` = no certificate recorded (`ssl_peer_cert == NULL`) -/
+def peerContains (ipLit : Str → Option Str) (peer : Option Cert) (q : Str) : Bool :=
+  match peer with
+  | none => false
+  | some c => containsName ipLit c q
+
+/-- client handshake result with the `verify_name` setting: with verification off
+    (`tls_config_insecure_noverifyname`) the name is not looked at -/
+def handshakeCfg (verifyName : Bool) (r : Res) : Int × String :=
+  if verifyName then handshakeRc r else (0, "none")
+
+/-- certificate recorded on the client by a handshake that returned `rc` -/
+def recordedPeer (rc : Int) (cert : Cert) : Option Cert := if rc == 0 then some cert else none
+
 /-! ### repeated calls on one connection (tls_handshake / tls_write / tls_read)
 
 `tls_handshake` may be called again at any time and `tls_read`/`tls_write` call it themselves
@@ -342,6 +362,24 @@ def runLine (line : String) : String :=
         | some a => "6:" ++ Usual.toHex a
         | none => "none"
     | _, _ => "bad-op"
+  | "hsq" :: m :: flags :: rest =>
+    let qws := rest.filter (·.startsWith "q:")
+    let ews := rest.filter (fun w => !(w.startsWith "q:"))
+    let qs := qws.filterMap fun w => parseName ("name:" ++ (w.drop 2).toString)
+    let okFlags := flags.length ≥ 1 && flags.length ≤ 4 && flags.toList.all (fun ch => "vnsftm".toList.contains ch)
+    if okFlags && qs.length == qws.length && qs.length ≥ 1 && qs.length ≤ 12 && ews.length ≥ 1 && ews.length < 61
+        && (rest.getLast!).startsWith "name:" then
+      match modeOf m, parseName (ews.getLast!), parseEntries ews.dropLast ⟨[], []⟩ with
+      | some strict, some name, some cert =>
+        let verify := !(flags.toList.contains 'n')
+        let (rc, cls) := handshakeCfg verify (checkName (ipLit strict) cert name)
+        let peer := recordedPeer rc cert
+        let ans := fun (p : Option Cert) => ",".intercalate (qs.map fun q => if peerContains (ipLit strict) p q then "1" else "0")
+        let base := s!"hs={if rc == 0 then "ok" else "fail"} err={cls} q={ans peer}"
+        -- mutual: the server records the client's certificate (the same one) whatever the client decides
+        if flags.toList.contains 'm' then base ++ s!" sq={ans (some cert)}" else base
+      | _, _, _ => "bad-op"
+    else "bad-op"
   | "hsr" :: m :: script :: rest =>
     let calls := script.toList.filterMap fun ch =>
       if ch == 'h' then some Call.hs else if ch == 'w' then some Call.wr
